@@ -549,7 +549,7 @@ def scenarios(tier):
     for part in range(6):
         name = 'sizing-%d/6' % (part + 1)
         out.append(dict(name=name, kind='enum', runner='run_sizing', params=dict(name=name, part=part, parts=6, tier=tier), weight=20))
-    for nseg in (3, 4, 5):
+    for nseg in (1, 2, 3, 4, 5):
         name = 'reassembly-%dseg' % nseg
         out.append(dict(name=name, kind='enum', runner='run_reassembly',
                         params=dict(name=name, segments=nseg, interleave=False, part=0, parts=1), weight=5))
